@@ -844,6 +844,14 @@ func runC09(a args, o *out) {
 
 	bigPlain := &sessCfg{name: "big-plain", lens: big.lens}
 
+	if a.only < 0 {
+		rounds := 12
+		if thorough {
+			rounds = 100
+		}
+		c09RaceOpen(o, rounds)
+	}
+
 	nworkers := 4
 	if thorough {
 		nworkers = 8
